@@ -313,14 +313,14 @@ fn parse_helper(pat: &mut &str, result: &mut Vec<Atom>) -> Result<(), PatError> 
 	result.push(Atom::Save(0));
 	let mut iter = pat.as_bytes().iter();
 	let mut save = 1;
-	let mut depth = 0;
+	let mut depth = 0usize;
 	#[derive(Default)]
 	struct SubPattern {
 		case: usize,
 		brks: Vec<usize>,
 		save: u8,
 		save_next: u8,
-		depth: u8,
+		depth: usize,
 	}
 	let mut subs = Vec::<SubPattern>::new();
 	while let Some(mut chr) = iter.next().cloned() {
